@@ -10,6 +10,7 @@ type Rewriter struct {
 	Name func(name string, role string) string
 	Decl func(d VarDecl) VarDecl // after the children were rebuilt
 	Func func(f FuncDef) FuncDef // after the children were rebuilt
+	Call func(c Call) Call       // after the arguments were rebuilt
 }
 
 func (rw *Rewriter) name(n, role string) string {
@@ -64,7 +65,11 @@ func (rw *Rewriter) expr(e Expr) Expr {
 	case Logic:
 		return Logic{Op: x.Op, L: rw.site(x.L, "logic-left"), R: rw.site(x.R, "logic-right")}
 	case Call:
-		return Call{Alias: rw.name(x.Alias, "alias"), Name: rw.name(x.Name, "func"), Rets: x.Rets, Args: rw.exprs(x.Args, "argument")}
+		c := Call{Alias: rw.name(x.Alias, "alias"), Name: rw.name(x.Name, "func"), Rets: x.Rets, Args: rw.exprs(x.Args, "argument")}
+		if rw.Call != nil {
+			c = rw.Call(c)
+		}
+		return c
 	case Index:
 		return Index{X: rw.expr(x.X), I: rw.site(x.I, "index"), Ty: x.Ty}
 	case Substr:
